@@ -2,6 +2,8 @@ package lint
 
 import (
 	"fmt"
+	"go/token"
+	"go/types"
 	"strings"
 
 	"golang.org/x/tools/go/ssa"
@@ -14,7 +16,7 @@ var CollectionAliases = []Alias{
 	{Glob: "*param#0.capacity", Name: "C"}, {Glob: "*free:param#0.capacity", Name: "C"},
 	{Glob: "*param#0.maxCapacity", Name: "M"}, {Glob: "*free:param#0.maxCapacity", Name: "M"},
 	{Glob: "*param#0.gap", Name: "G"}, {Glob: "*free:param#0.gap", Name: "G"},
-	{Glob: "*var:int64", Name: "P"}, {Glob: "*free:var:int64", Name: "P"},
+	{Name: "P", Match: isWatcherPos},
 	{Glob: "*var:pkg/state.Watch*Options.TailEvents", Name: "T"}, {Glob: "*free:var:pkg/state.Watch*Options.TailEvents", Name: "T"},
 }
 
@@ -26,6 +28,71 @@ const (
 	linBehind     = "ne:+1*P-1*W"
 	linPosLtW     = "le:+1*P-1*W+1" // pos < writePos
 )
+
+// isWatcherPosAddr identifies the watcher's position variable by role rather than by name or type
+// order: the int64 local of Watch/WatchAll (possibly captured by the delivery goroutine) that is
+// initialised from the collection's writePos.
+func isWatcherPosAddr(addr ssa.Value) bool {
+	var al *ssa.Alloc
+
+	for range 6 {
+		switch a := addr.(type) {
+		case *ssa.Alloc:
+			al = a
+		case *ssa.FreeVar:
+			// resolve the captured variable through the closure's creation site
+			fn := a.Parent()
+			if fn == nil || fn.Parent() == nil {
+				return false
+			}
+
+			var next ssa.Value
+
+			for _, b := range fn.Parent().Blocks {
+				for _, in := range b.Instrs {
+					mc, ok := in.(*ssa.MakeClosure)
+					if !ok || mc.Fn != ssa.Value(fn) {
+						continue
+					}
+
+					for i, fv := range fn.FreeVars {
+						if fv == a && i < len(mc.Bindings) {
+							next = mc.Bindings[i]
+						}
+					}
+				}
+			}
+
+			if next == nil {
+				return false
+			}
+
+			addr = next
+
+			continue
+		}
+
+		break
+	}
+
+	if al == nil || !isIntType(al.Type().(*types.Pointer).Elem()) {
+		return false
+	}
+
+	for _, st := range AllStores(al) {
+		if LoadsField(st.Val, "ResourceCollection", "writePos") {
+			return true
+		}
+	}
+
+	return false
+}
+
+func isWatcherPos(v ssa.Value) bool {
+	load, ok := v.(*ssa.UnOp)
+
+	return ok && load.Op == token.MUL && isWatcherPosAddr(load.X)
+}
 
 func init() {
 	register(&PropertyInfo{
@@ -235,7 +302,10 @@ func runC02(c *Ctx) {
 				}
 			}
 
-			rng := Find(f, func(in ssa.Instruction) bool { r, ok := in.(*ssa.Range); return ok && LoadsField(r.X, "ResourceCollection", "storage") })
+			rng := Find(f, func(in ssa.Instruction) bool {
+				r, ok := in.(*ssa.Range)
+				return ok && LoadsField(r.X, "ResourceCollection", "storage")
+			})
 			c.Check(okSnap && nApp >= 1 && len(rng) == 1 && li.HeldAt(rng[0]) > 0, "R02.3", FuncName(f)+" :: bootstrap snapshot is built from storage inside the critical section that reads writePos", fpos(f),
 				"range over storage + append under the lock", "snapshot not taken in this critical section: "+why)
 
@@ -251,7 +321,7 @@ func runC02(c *Ctx) {
 			for _, in := range Find(del, func(in ssa.Instruction) bool {
 				st, ok := in.(*ssa.Store)
 
-				return ok && Glob("free:var:int64", p.Desc(st.Addr))
+				return ok && isWatcherPosAddr(st.Addr)
 			}) {
 				n++
 
@@ -306,7 +376,7 @@ func runC02(c *Ctx) {
 			return func(in ssa.Instruction) bool {
 				st, ok := in.(*ssa.Store)
 
-				return ok && Glob("free:var:int64", p.Desc(st.Addr)) && p.LinOf(st.Val, al).String() == want
+				return ok && isWatcherPosAddr(st.Addr) && p.LinOf(st.Val, al).String() == want
 			}
 		}
 
@@ -335,7 +405,7 @@ func runC02(c *Ctx) {
 			c.Check(len(Find(del, posStore("+1*P+1"))) == 1 && len(Find(del, func(in ssa.Instruction) bool {
 				st, ok := in.(*ssa.Store)
 
-				return ok && Glob("free:var:int64", p.Desc(st.Addr))
+				return ok && isWatcherPosAddr(st.Addr)
 			})) == 1, "R02.5", FuncName(del)+" :: the only change of pos is pos+1", fpos(del), "yes", "pos is changed in another way")
 		} else {
 			var slices []*ssa.Slice
